@@ -120,7 +120,7 @@ def run(ctx):
         for c, im, r in zip(cases, impls, lres):
             if im['build'] == 'ok' and 'layout-ok' not in r:
                 layout_bad += 1
-                ctx.coverage.setdefault('first_disagreement', dict(case=c, what='premise layout_okb of C01_expected_data_refines_partial: ' + r))
+                ctx.coverage.setdefault('first_disagreement', dict(case=c, what='cross-check of C01_accepted_layout_bool (layout_okb): ' + r))
                 tie = tie or ('premise layout_okb of the refinement theorem is false on a generated model: ' + r)
     except core.CoqEvalError as e:
         tie = tie or ('model evaluation failed: ' + str(e)[-1200:])
